@@ -258,7 +258,8 @@ impl<'a> Gen<'a> {
         let bid = self.r.chance(0.5);
         let price = self.pick_price(a, bid, 0.75);
         let vol = gen_vol(self.r, self.vol_kind);
-        let trader = self.r.below(5) as u32;
+        // trader ids are opaque: mostly small, sometimes at the top of the domain
+        let trader = if self.r.chance(0.05) { u32::MAX - self.r.below(3) as u32 } else { self.r.below(5) as u32 };
         self.push(Op::CreatePlace { a, bid, vol, trader, price: Some(price) });
     }
 
